@@ -442,6 +442,18 @@ def events_for(r: random.Random, w: World, P: str) -> None:
             w.sessions[0].setdefault("events", []).append("ISS")
     if P in ("callbacks", "ledger", "logger"):
         add_user_rules(r, w, p_rewrite=0.08, owner=(P == "callbacks"))
+    if P == "callbacks" and r.random() < 0.06 and w.scripted:
+        # one forged entry (another agent's id) inside an otherwise genuine list: the whole list must be refused
+        hf = [a for a in w.scripted if a["hft"]] or w.scripted
+        victim = r.choice(hf)
+        turns = w.scripts.get(victim["name"])
+        if turns:
+            pos = r.randrange(len(turns))
+            mk = w.markets[0]
+            good = gen_turn(r, w, victim["markets"], 0.0, 0.0, 0.0, 0.3, False, 2) or []
+            op = {"k": "spoof", "m": 0, "side": r.choice("bs"), "px": {"mode": "abs", "v": mk["p0"]}, "vol": 1, "nth": r.randrange(5)}
+            where = r.randrange(len(good) + 1)
+            turns[pos] = good[:where] + [op] + good[where:]
     if P == "logger" and len(w.sessions) >= 2 and r.random() < 0.15:
         w.probes["SWP"] = {"hooks": [{"kind": "session", "before": True, "times": None}],
                            "sweep": {"cancel": r.randint(0, 4), "quote": r.random() < 0.6, "buy": r.random() < 0.5}}
